@@ -79,7 +79,7 @@ def run(chk):
     for c, g in graphs.items():
         scheds = _schedules(g)
         n_all = len(scheds)
-        cap = chk.pick(600, 6000)
+        cap = chk.pick(400, 4000)
         if len(scheds) > cap:
             scheds.sort(key=lambda s: -sum(1 for x in s["schedule"] if x[0] == "crash"))
             keep, rest = scheds[: cap // 2], scheds[cap // 2:]
@@ -92,8 +92,9 @@ def run(chk):
             if r["errors"]:
                 raise Machinery("harness control loop failed: %s (plan %s schedule %s)" % (r["errors"], sc["plan"], sc["schedule"]))
             if r["drift"] and len(chk.notes) < 10:
-                chk.note("conformance drift (%s): command %s of a model schedule not enabled on the real system (enabled %s)" % (
-                    c, r["drift"][0]["cmd"], r["drift"][0]["enabled"]))
+                chk.note("schedule divergence (%s): command %s of a model schedule not enabled on the real system (enabled %s); "
+                         "the model allows several branches where the code pops an arbitrary element of asyncio.wait's done set; "
+                         "the run was completed and judged anyway" % (c, r["drift"][0]["cmd"], r["drift"][0]["enabled"]))
             for s in sc["plan"]:
                 keys.update(x for x in s if x != "same")
             traces.append({"plan": sc["plan"], "init": r["init"], "steps": r["steps"]})
